@@ -112,6 +112,8 @@ def run_table(rec, res: int, rng):
             rec.cls("tempo_segment_without_notes_between_two_notes")
         case = gen.render_truth(truth, rng, permute_groups=True)
         out, ob, d = mcheck.judge(rec, ("C04",), case)
+        if d is not None and not d.of("C04") and not mcheck.constructor_route(rec, ("C04",), case, out, max_notes=1025):
+            return
         if d is not None and not d.of("C04"):
             cells += 1024 * 4
             rec.disjoint += 1024 * 4
@@ -154,6 +156,8 @@ def run_shard(shard, rec, tier, seed):
             if i % 20 == 1:
                 rec.cls("track_with_thousands_of_notes")
             out, ob, d = mcheck.judge(rec, ("C04",), case)
+            if d is not None and not d.of("C04") and i % 3 == 0 and not mcheck.constructor_route(rec, ("C04",), case, out):
+                continue
             if d is not None and not d.of("C04"):
                 rec.key(case["text"])
             if rec.full:
